@@ -22,7 +22,9 @@ RULE = ('programs of 1-4 transformations {reify_edges, dereify_edges, reify_attr
         'to five graph classes: hand-built WF-G without markers (explicit top), decoded, decoded '
         'with another top, decoded then shuffled (stale markers), edited (DESIGN 3.7: marker entries '
         'deleted, triples/nodes added or removed), and texts with explicit reified relations '
-        '(decode(encode(reify_edges(g), top=any))) re-topped to any variable; models default, AMR (incl. :subset/:superset and '
+        '(decode(encode(reify_edges(g), top=any - in 40% of the cases a relation node))) re-topped to any variable '
+        'or to an argument of the top relation, with planted relation nodes that repeat a role, carry a third '
+        'relation or do not fit the table; models default, AMR (incl. :subset/:superset and '
         'dereifiable concepts), mini-AMR, random tables. Every intermediate result is checked. '
         'Non-trivial: the program changed the graph at least once.')
 ANCHORS = ['penman.transform:reify_edges', 'penman.transform:dereify_edges',
